@@ -39,6 +39,7 @@ def run(ctx):
     from rules.tables import lossless_bool_subpackets
     lossless_bool_subpackets(ctx, P)
     opaque_layout(ctx, P)
+    version_named_dispatch(ctx, P)
     dispatch(ctx, P)
     # packet / subpacket length encoders and decoders are mutually inverse partitions (shared with C17)
     from rules import c17
@@ -365,6 +366,65 @@ def mpi_padding_order(ctx, P):
     ctx.floor(P + ':S05-11:floor', 'functions that both pad and reverse MPI octets', n, 1)
 
 
+VERSION_ARM_EXCEPTIONS = {
+    # RFC 9580 5.4: "version 4 keys use a version 3 One-Pass Signature packet (there is no version 4 OPS)"
+    ('OnePassSignature::v3', 'KeyVersion', 'V4'),
+}
+VERSION_DISPATCH_REQUIRED = [
+    # (function, callee / variant, version enum, arm): the parse-side dispatches confirmed on the reference tree
+    ('packet::signature::de::v3_parser', 'Signature::v2', 'SignatureVersion', 'V2'),
+    ('packet::signature::de::v3_parser', 'Signature::v3', 'SignatureVersion', 'V3'),
+    ('packet::public_key_parser::parse', 'public_key_parser::public_key_parser_v2_v3', 'KeyVersion', 'V2'),
+    ('packet::public_key_parser::parse', 'public_key_parser::public_key_parser_v2_v3', 'KeyVersion', 'V3'),
+    ('packet::public_key_parser::parse', 'public_key_parser::public_key_parser_v4_v6', 'KeyVersion', 'V4'),
+    ('packet::public_key_parser::parse', 'public_key_parser::public_key_parser_v4_v6', 'KeyVersion', 'V6'),
+    ('packet::secret_key_parser::parse', 'secret_key_parser::private_key_parser_v2_v3', 'KeyVersion', 'V2'),
+    ('packet::secret_key_parser::parse', 'secret_key_parser::private_key_parser_v4_v6', 'KeyVersion', 'V6'),
+    ('types::fingerprint::Fingerprint::new', 'Fingerprint::V4', 'KeyVersion', 'V4'),
+    ('types::fingerprint::Fingerprint::new', 'Fingerprint::V6', 'KeyVersion', 'V6'),
+]
+
+
+def version_named_dispatch(ctx, P):
+    """R-sib over the whole crate: a function or variant whose name carries version numbers (`v3`, `to_writer_v4_v6`, `Fingerprint::V6`)
+    that is used inside an arm of a match on a `*Version` enum is used in an arm of one of ITS versions; and the parse-side dispatches
+    of the reference tree are all still there (a parser that sends every version to one constructor turns a v2 object into a v3 one,
+    so it no longer re-serialises to the bytes it was read from)."""
+    seen = set()
+    n = 0
+    for p, r in sorted(ctx.f.bodies.items()):
+        if r.get('derived'):
+            continue
+        b = ctx.wrap(r)
+        items = []
+        for i, t in b.calls(r'(::|_)v\d$'):
+            fn = t['f']['fn']
+            items.append((i, '::'.join(fn.split('::')[-2:]), re.findall(r'v(\d)', fn.split('::')[-1])))
+        for i, k, s in b.stmts(lambda s: s['r']['k'] == 'agg' and s['r'].get('ak') == 'adt' and re.match(r'V\d$', s['r'].get('v') or '')):
+            items.append((i, s['r']['adt'].split('::')[-1] + '::' + s['r']['v'], [s['r']['v'][1:]]))
+        if not items:
+            ctx.functions.discard(p)
+            continue
+        dom = b.dominators()
+        for i, what, nums in items:
+            for a, vs in arm_context(b, i, dom):
+                if not (a.endswith('Version') and vs and all(re.match(r'V\d$', v) for v in vs)):
+                    continue
+                n += 1
+                enum = a.split('::')[-1]
+                ok = any(('V' + x) in vs for x in nums) or any((what, enum, v) in VERSION_ARM_EXCEPTIONS for v in vs)
+                for v in vs:
+                    if ('V' + v[1:]) in ['V' + x for x in nums]:
+                        seen.add((p, what, enum, v))
+                if not ok:
+                    ctx.violation('%s:S05-12:version-arm:%s:%s' % (P, p, what), 'R-sib', 'a version-named function / variant is used in an arm of its own version',
+                                  function=p, site=site(b, i), missing='%s used in the %s arm %s' % (what, enum, '|'.join(vs)))
+    ctx.floor(P + ':S05-12:floor', 'version-named uses inside version arms', n, 30)
+    missing = [x for x in VERSION_DISPATCH_REQUIRED if x not in seen]
+    ctx.check(P + ':S05-12:parse-side-dispatch-complete', 'R-sib', 'every version dispatch of the parsers still selects the constructor of that version (reference table of %d dispatches)' % len(VERSION_DISPATCH_REQUIRED),
+              not missing, missing=['%s: %s not used in the %s::%s arm' % x for x in missing] or None)
+
+
 def stored_length_encoding(ctx, P):
     """Objects that keep the length encoding they were read with (Subpacket.len, UserAttribute.subpacket_len) write that stored
     value back: in every arm of to_writer the length prefix written derives from the stored field, never from a fresh
@@ -464,6 +524,29 @@ def opaque_layout(ctx, P):
         ctx.check('%s:S05-6:opaque:%s' % (P, short), 'R-seq', '%s::%s is written with the same number of fixed octets (%s) it was parsed with' % (short, var, rd),
                   wr is not None and wr == rd, function=wpath, table=dict(read_fixed=rd, written_fixed=wr))
     ctx.floor(P + ':S05-6:floor', 'opaque variants checked', n, 2)
+    # an opaque body followed by a separately stored trailing field: the writer emits body then field, so the parser must have
+    # REMOVED the field's octet(s) from the body it stores (a peek stores the octet twice and every write/parse cycle grows the packet)
+    TAILS = [('packet::one_pass_signature::OnePassSignature::try_from_reader', 'packet::one_pass_signature::OpsVersionSpecific', 'Unknown',
+              '<packet::one_pass_signature::OnePassSignature as ser::Serialize>::to_writer', r'field:OnePassSignature\.last$')]
+    CONSUMING = r'(Bytes|BytesMut)::(split_off|split_to|truncate|slice|advance)$|Buf::(get_u8|advance|split_to|copy_to_bytes)$|Vec::<.*>::(pop|truncate|split_off)$|::split_last$|::split_at$'
+    for rp, adt, var, wp, fld in TAILS:
+        rb = ctx.body(rp)
+        wb = ctx.body(wp)
+        if rb is None or wb is None:
+            continue
+        cons = rb.constructs(adt + '$', var)
+        wr = [i for i, t in wb.calls(r'WriteBytesExt::write_u8$') if has_origin(wb.operand_origins(t['args'][1]), fld)]
+        if not cons or not wr:
+            ctx.missing('%s:S05-6:opaque-tail:%s' % (P, adt.split('::')[-1]), 'opaque construct or trailing-field write not found')
+            continue
+        rdom_ = rb.dominators()
+        cblk = cons[0][0]
+        rest = [i for i, t in rb.calls(r'BufReadParsing::rest$') if i in rdom_[cblk]]
+        cut = [i for i, t in rb.calls(CONSUMING) if i in rdom_[cblk] and any(r in rdom_[i] for r in rest)]
+        ctx.check('%s:S05-6:opaque-tail:%s' % (P, adt.split('::')[-1]), 'R-seq',
+                  '%s::%s keeps an opaque body and a separately written trailing field: the parser removes the field from the body (a consuming call after rest() dominates the construct)' % (adt.split('::')[-1], var),
+                  bool(rest) and bool(cut), function=rp, sites=[site(rb, i) for i in cut], writer=[site(wb, i) for i in wr],
+                  missing=None if cut else 'the trailing field is read from the opaque body without being removed from it')
 
 
 def dispatch(ctx, P):
